@@ -1323,6 +1323,9 @@ func (t *FnTrans) siteHook(kind string, in ssa.Instruction, b *ssa.BasicBlock, i
 	default:
 		text = t.srcText(in.Pos())
 	}
+	if os.Getenv("GOVC_DEBUG_SITES") != "" {
+		fmt.Fprintf(os.Stderr, "site-debug hook kind=%s text=%q\n", kind, text)
+	}
 	for _, s := range t.con.Sites {
 		if s.Kind != kind {
 			continue
@@ -1355,6 +1358,10 @@ func (t *FnTrans) siteHook(kind string, in ssa.Instruction, b *ssa.BasicBlock, i
 					env.vars["result"], env.vars["result0"] = rv, rv
 				}
 			}
+		}
+		if ms, ok := in.(*ssa.MakeSlice); ok {
+			// make([]T, len, cap): arg1 is the length, arg2 the capacity
+			env.vars["arg1"], env.vars["arg2"] = t.val(ms.Len), t.val(ms.Cap)
 		}
 		if r, ok := in.(*ssa.Return); ok {
 			for i, a := range r.Results {
@@ -1556,6 +1563,17 @@ func (t *FnTrans) siteOrdinal(s *SiteSpec, kind string, in ssa.Instruction) int 
 				if kind == "call" || kind == "callret" {
 					text, ok = t.callText(x), true
 				}
+			case *ssa.MakeSlice, *ssa.MakeMap, *ssa.MakeChan:
+				// the builtin make(...) is addressed like a call: `site call make #n`
+				// (n counts the make expressions of the function in source order;
+				// arg1 / arg2 are the length and the capacity of a slice)
+				if kind == "call" {
+					text, ok = t.srcText(i2.Pos()), true
+				}
+			case *ssa.Alloc:
+				if kind == "call" && x.Comment == "makeslice" {
+					text, ok = t.srcText(x.Pos()), true
+				}
 			case *ssa.Store:
 				if kind == "store" {
 					text, ok = t.srcText(x.Pos()), true
@@ -1622,9 +1640,13 @@ func siteTextMatch(kind, text, want string) bool {
 // siteMatchesInstr: does the site specification select this instruction?
 func (t *FnTrans) siteMatchesInstr(s *SiteSpec, in ssa.Instruction) bool {
 	kind := ""
-	switch in.(type) {
-	case *ssa.Call:
+	switch x := in.(type) {
+	case *ssa.Call, *ssa.MakeSlice, *ssa.MakeMap, *ssa.MakeChan:
 		kind = "call"
+	case *ssa.Alloc:
+		if x.Comment == "makeslice" {
+			kind = "call"
+		}
 	case *ssa.Store:
 		kind = "store"
 	case *ssa.MapUpdate:
